@@ -59,3 +59,9 @@ func (e *StorageEngine) VerifShardErrorCount(id string) uint32 {
 	}
 	return sh.errorCount.Load()
 }
+
+// VerifRemoveShards detaches (and closes) the given shards: the engine then consists of the
+// remaining ones only.
+func (e *StorageEngine) VerifRemoveShards(ids ...string) {
+	e.removeShards(ids...)
+}
